@@ -26,6 +26,7 @@ type c01HTTP struct {
 	status int
 	mode   int // 0 WriteHeader, 1 WriteHeader+body, 2 body only (implicit 200), 3 nothing (implicit 200)
 	ran    int
+	panicV any // when non-nil the handler panics with it after writing
 }
 
 func c01NewHTTP(metrics *stat.Metrics, tag string) *c01HTTP {
@@ -44,6 +45,9 @@ func c01NewHTTP(metrics *stat.Metrics, tag string) *c01HTTP {
 		case 2:
 			_, _ = w.Write([]byte("implicit"))
 		}
+		if c.panicV != nil {
+			panic(c.panicV)
+		}
 	}))
 	return c
 }
@@ -54,7 +58,7 @@ func (c *c01HTTP) call(status, mode int) (ran bool, code int) {
 	before := c.ran
 	rec := httptest.NewRecorder()
 	req := httptest.NewRequest(http.MethodGet, "http://localhost/c01", nil)
-	c.h.ServeHTTP(rec, req)
+	vk.Recover(func() { c.h.ServeHTTP(rec, req) }) // a handler panic that propagates through the middleware stops here
 	return c.ran > before, rec.Code
 }
 
@@ -69,7 +73,7 @@ func c01StatusClass(s int) string {
 }
 
 func TestVerifC01HTTPBenignTable(t *testing.T) {
-	m := vk.New(t, "C01", "BreakerHandler + httptest recorder, virtual clock frozen: every status 100-499 (and implicit 200) alone x150 requests on a fresh breaker => 0 dropped; 10000 mixed benign statuses on one breaker => 0 dropped; every status 500-599 alone x400 requests => at least one request dropped, every drop answers 503 without running the handler; non-trivial = row whose breaker dropped something")
+	m := vk.New(t, "C01", "BreakerHandler + httptest recorder, virtual clock frozen: every status 100-499 (and implicit 200) alone x150 requests on a fresh breaker => 0 dropped; 10000 mixed benign statuses on one breaker => 0 dropped; every status 500-599 alone x400 requests => at least one request dropped, every drop answers 503 without running the handler; handler writes 5xx and then panics (panic recovered by the harness) x400 => at least one request dropped; non-trivial = row whose breaker dropped something")
 	defer m.Done()
 	logx.Disable()
 	stat.SetReporter(nil)
@@ -157,6 +161,45 @@ func TestVerifC01HTTPBenignTable(t *testing.T) {
 		m.Case(fmt.Sprint("failing", s, drops > 0), drops > 0)
 		if s%25 == 0 {
 			m.Sample(map[string]any{"scenario": fmt.Sprintf("status %d x%d", s, perBad), "dropped": drops, "first_drop_at_request": firstDrop})
+		}
+	}
+	// ---- a handler that answers 5xx and then panics keeps failing: it must be cut off too
+	// (status >= 500 is not benign and a panic is a failure: either way one failure per admitted request)
+	for i, row := range []struct {
+		status int
+		mode   int
+		pv     any
+		name   string
+	}{
+		{502, 0, http.ErrAbortHandler, "ErrAbortHandler"},
+		{500, 1, "c01 handler panic", "string"},
+		{503, 0, fmt.Errorf("c01 error panic"), "error"},
+		{599, 1, http.ErrAbortHandler, "ErrAbortHandler"},
+	} {
+		c := c01NewHTTP(metrics, fmt.Sprint("panic", i))
+		c.panicV = row.pv
+		desc := fmt.Sprintf("case=%d;handler writes %d then panics (%s) x%d on a fresh BreakerHandler, panic recovered by the harness around ServeHTTP", 900+i, row.status, row.name, perBad)
+		drops := 0
+		bad := false
+		for k := 0; k < perBad; k++ {
+			ran, code := c.call(row.status, row.mode)
+			m.Count("requests_5xx_then_panic", 1)
+			if !ran {
+				drops++
+				if code != http.StatusServiceUnavailable {
+					m.Violate("C01:reject:http:wrong-status", desc, "dropped request #%d was answered %d, want 503", k, code)
+					bad = true
+					break
+				}
+			}
+		}
+		m.Count("requests_dropped_5xx_then_panic", int64(drops))
+		if !bad && drops == 0 {
+			m.Violate("C01:nonbenign:http:"+c01StatusClass(row.status)+"-then-panic:never-cut-off", desc, "%d consecutive requests whose handler wrote %d and then panicked, and not a single request was dropped: admitted requests that end in a panic record no failure", perBad, row.status)
+		}
+		m.Case(fmt.Sprint("5xx-then-panic", i, drops > 0), drops > 0)
+		if i == 0 {
+			m.Sample(map[string]any{"scenario": fmt.Sprintf("handler writes %d then panics with http.ErrAbortHandler x%d", row.status, perBad), "dropped": drops})
 		}
 	}
 	// ---- recovery through the handler: failures age out, benign traffic is never cut off
